@@ -594,11 +594,15 @@ def unfoldings(ctx, terms, fuel=1):
     return facts
 
 
-def build_query(ctx, hyps, goal=None, fuel=1, get_model=False, extra_opts=()):
+def build_query(ctx, hyps, goal=None, fuel=1, get_model=False, extra_opts=(), with_axioms=True):
     """SMT-LIB text asserting hyps and the negation of goal."""
     terms = list(hyps) + ([goal] if goal is not None else [])
-    unf = unfoldings(ctx, terms, fuel)
+    unf = unfoldings(ctx, terms, fuel) if with_axioms else []
     syms, axioms = closure_syms(ctx, terms + unf)
+    if not with_axioms:
+        # pruning queries: quantified axioms only make 'sat' slow; leaving them out can only weaken pruning
+        axioms = [a for a in axioms if '(forall ' not in a.s and '(exists ' not in a.s]
+        syms, _ = closure_syms(ctx, terms + axioms)
     # axioms may themselves contain recursive apps
     unf2 = unfoldings(ctx, axioms, fuel)
     if unf2:
